@@ -10,11 +10,41 @@ def check_C16(tier, seed):
              "a case is non-trivial when the sequence has >= 2 values; distinct by hash of the s-expression input")
 
 
+def check_C17(tier, seed):
+    import sys, os
+    sys.path.insert(0, os.path.join(os.path.dirname(os.path.abspath(__file__)), "..", "translators"))
+    import server_map
+    import driver as D
+
+    def t6():
+        server_map.generate(D.REPO, os.path.join(D.COQ, "theories", "Gen", "ServerMap.v"))
+    t6.__name__ = "T6 server_map (errors.rs, server/mod.rs)"
+    return standard_check(
+        "C17", tier, seed, "wire", ["c17_encode", "c17_status", "c17_http"], translators=[t6],
+        trusted=["actix-web, tokio, reqwest, serde_json, capnp (runtime; exercised over loopback only)",
+                 "translator T6 (translators/server_map.py): QueryError variants, map_err_response arms, query-endpoint handlers"],
+        assumptions=["the reserved NaN 0x7ffaaaaaaaaaaaaa is not a data value", "JSON cannot carry non-finite floats (excepted by the property)"],
+        rule="encode_column: all column kinds, all 15 type signatures of Mixed columns, xor on/off, mantissa None/0..52; status: every QueryError variant; "
+             "http: seeded sessions of 6-14 interleaved inserts and queries (8 succeeding, 8 failing query shapes) against /query, /query_cols, /multi_query_cols "
+             "(JSON, binary, binary+xor, binary+xor+mantissa) compared with the embedded API on an independent database fed the same batches")
+
+
 CHECKS = {
     "C16": check_C16,
+    "C17": check_C17,
 }
 
 CLAIMED = {
+    "C17": dict(
+        text="Machine-checked proof (Coq) that the response encoder (encode_column: all five column kinds, every type signature of a Mixed column, with and "
+             "without XOR float compression / reduced mantissa) delivers to the client exactly the embedded result's cells (floats: on all bits the mantissa keeps), "
+             "and — over tables REGENERATED from the source on every run — that every QueryError maps to a 4xx/5xx status and that every query endpoint routes errors "
+             "through that mapping. Tied to the code by a direct differential of encode_column and map_err_response and by loopback HTTP sessions compared with the "
+             "embedded API (JSON and binary encodings, interleaved inserts and queries, failing queries, server still answering afterwards).",
+        note="Partial: actix/tokio/sockets, JSON rendering by serde_json and request plumbing are runtime behaviour reached only by the loopback sessions. "
+             "Trusted: Coq kernel, extraction, translator T6, harness glue.",
+        technique="Coq proof over encoder model + regenerated error/handler tables + loopback HTTP differential",
+        design_ref="5/C17"),
     "C16": dict(
         text="Machine-checked proof (Coq 8.16) that the XOR float coder model round-trips every list of 64-bit patterns "
              "bit-exactly for every max_regret, that the encoder cannot panic below max_regret = u32::MAX-62, and that a "
